@@ -143,3 +143,42 @@ def run_corpus(chk, component="corpus", spec=True):
             if i != m:
                 chk.report_tie("corpus: implementation and Lean model disagree",
                                {"component": component, "case": l, "implementation": i, "model": m})
+
+
+def parse_plain_bounds(text):
+    """comma list of N, N:M, N:, :M with optional =fallback (no braces) -> [(l, r, fb)] or None"""
+    out = []
+    for part in text.split(","):
+        fb = None
+        if "=" in part:
+            part, fb = part.split("=", 1)
+        try:
+            if ":" in part:
+                a, b = part.split(":", 1)
+                l = int(a) if a else None
+                r = int(b) if b else None
+            else:
+                l = r = int(part)
+        except ValueError:
+            return None
+        out.append((l, r, fb))
+    return out
+
+
+def lines_straddle_with_fallback(c):
+    """KNOWN FINDING matcher: -l served one line at a time (all indexes positive, no -m/-p), a closed
+    range l ≤ n < r that straddles the end of the input, and a fallback (own or --fallback-oob)."""
+    if c.get("eng") not in ("lines", "auto") or c.get("bt") != "l" or c.get("m") or c.get("p"):
+        return False
+    bs = parse_plain_bounds(c.get("b", ""))
+    if not bs:
+        return False
+    if any((l is not None and l < 0) or (r is not None and r < 0) for l, r, _ in bs):
+        return False
+    eol = b"\0" if c.get("z") else b"\n"
+    n = len(split_records(c.get("in", b""), eol))
+    for l, r, fb in bs:
+        lo = 1 if l is None else l
+        if r is not None and lo <= n < r and (fb is not None or c.get("fb") is not None):
+            return True
+    return False
